@@ -155,6 +155,23 @@ func (s *Server) writeAOF(args []string, d *commandDetails) error {
 	if s.shrinking {
 		nargs := make([]string, len(args))
 		copy(nargs, args)
+		if d != nil && d.obj != nil && len(args) > 0 {
+			switch strings.ToLower(args[0]) {
+			case "jset", "jdel":
+				// The shrink log is replayed on top of a snapshot that may
+				// already contain this change, and a path that addresses an
+				// array element (append with -1, delete by index) does not
+				// produce the same document when it is applied twice. Log
+				// the resulting document instead of the operation.
+				if objIsSpatial(d.obj.Geo()) {
+					nargs = []string{"SET", d.key, d.obj.ID(), "OBJECT",
+						string(d.obj.Geo().AppendJSON(nil))}
+				} else {
+					nargs = []string{"SET", d.key, d.obj.ID(), "STRING",
+						d.obj.Geo().String()}
+				}
+			}
+		}
 		s.shrinklog = append(s.shrinklog, nargs)
 	}
 
